@@ -138,7 +138,7 @@ def all_docs(n, depth):
 DEFAULTS = dict(qnospace=False, pad=1, lindent=0, qindent=0, lazy=False, bindent=0, item_blank_first=False,
                 quote_blank_first=False, blanks=1, lead_blank=0, bullet='-', bullet2='*', odelim='.', fence_len=3,
                 fence_close_extra=0, atx_closing='', setext_len=3, hr='***', tight_siblings=False, loose_items=False,
-                trailing_newline=True, table_pipes='both')
+                trailing_newline=True, table_pipes='both', renderer_form=False)
 CHOICES = dict(qnospace=[True], pad=[2, 3, 4], lindent=[1, 2, 3], qindent=[1, 2, 3], lazy=[True], bindent=[1, 2, 3],
                item_blank_first=[True], quote_blank_first=[True], blanks=[2], lead_blank=[1, 2], bullet=['+', '*'],
                bullet2=['+', '-'], odelim=[')'], fence_len=[4, 6], fence_close_extra=[2], atx_closing=['#', '###'],
@@ -273,23 +273,38 @@ def write_block(b, rec, o, base, no_indent=False):
     if k == 'linkdef':
         return linkdef_lines(b)
     if k == 'table':
+        d = {None: '---', 0: ':-:', 1: '--:'}
+        if o['table_pipes'] == 'padded':
+            # the Markdown renderer's own normal form: cells padded to the column width (minimum 3), aligned
+            rows = [b.header] + b.rows
+            widths = [max([3] + [len(r[c]) for r in rows if c < len(r)]) for c in range(len(b.header))]
+
+            def prow(cells):
+                out = []
+                for c, w in enumerate(widths):
+                    t = cells[c] if c < len(cells) else ''
+                    a = b.aligns[c]
+                    out.append(t.ljust(w) if a is None else (t.center(w) if a == 0 else t.rjust(w)))
+                return '| ' + ' | '.join(out) + ' |'
+            seps = [(':' if a == 0 else '-') + '-' * (w - 2) + (':' if a in (0, 1) else '-') for a, w in zip(b.aligns, widths)]
+            return [prow(b.header), '| ' + ' | '.join(seps) + ' |'] + [prow(r) for r in b.rows]
+
         def row(cells):
             return ('| ' + ' | '.join(cells) + ' |') if o['table_pipes'] == 'both' else ' | '.join(cells)
-        d = {None: '---', 0: ':-:', 1: '--:'}
         return [row(b.header), row([d[a] for a in b.aligns])] + [row(r) for r in b.rows]
     if k == 'quote':
         off = 1 if (o['quote_blank_first'] and b.children) else 0
         inner = write_doc(b.children, rec, o, base + off)
         qi = '' if no_indent else ' ' * o['qindent']
         if not inner:
-            return [qi + '>']
+            return [qi + ('> ' if o['renderer_form'] else '>')]
         lz = lazy_lines(b.children, o) if o['lazy'] else ()
 
         def q(l, i):
             if i in lz:
                 return l
             if not l:
-                return qi + '>'
+                return qi + ('> ' if o['renderer_form'] else '>')
             if o['qnospace'] and not l.startswith(' '):
                 return qi + '>' + l
             return qi + '> ' + l
@@ -309,7 +324,7 @@ def write_block(b, rec, o, base, no_indent=False):
             bf = bool(o['item_blank_first'] and it)
             inner = write_doc(it, rec, o, base + len(out) + (1 if bf else 0), in_item=True)
             if not inner:
-                out.append(' ' * o['lindent'] + m)
+                out.append(' ' * o['lindent'] + m + (' ' if o['renderer_form'] else ''))
                 continue
             width = len(m) + (1 if bf else o['pad']) + o['lindent']
             m = ' ' * o['lindent'] + m
